@@ -18,6 +18,7 @@ import (
 	"strings"
 	"sync"
 	"testing"
+	"time"
 
 	"github.com/tmpim/casket"
 	"pgregory.net/rapid"
@@ -62,15 +63,31 @@ func setupOnce() *fixture.Tree {
 			env := fcgi.ProcessEnv(r)
 			fmt.Fprintf(w, "BACKEND-SAW[%s] some fastcgi content\n", strings.TrimPrefix(env["PATH_TRANSLATED"], env["DOCUMENT_ROOT"]))
 		}))
-		// htpasswd file: the rule users plus a user no rule names
-		sha := func(p string) string {
-			h := sha1.Sum([]byte(p))
-			return "{SHA}" + base64.StdEncoding.EncodeToString(h[:])
-		}
 		htFile = filepath.Join(filepath.Dir(tree.Root), "c03.htpasswd") // casket resolves htpasswd= relative to the site root
-		os.WriteFile(htFile, []byte("carol:"+sha("carol-pass")+"\nalice:"+sha("wonder-land")+"\nbob:"+sha("builder")+"\n"), 0o644)
+		writeHtpasswd(false)
 	})
 	return tree
+}
+
+const revokedAlice, revokedBob = "old-alice-pw", "old-bob-pw"
+
+// writeHtpasswd writes the htpasswd file: the rule users plus a user no rule names.  The previous
+// generation of the file holds other passwords for alice and bob (hashes are of equal length, so the
+// file size is the same) and is newer than the current one: the current file is what an operator put
+// back from a backup with its old modification time.
+func writeHtpasswd(previous bool) {
+	sha := func(p string) string {
+		h := sha1.Sum([]byte(p))
+		return "{SHA}" + base64.StdEncoding.EncodeToString(h[:])
+	}
+	a, b, at := "wonder-land", "builder", time.Now().Add(-48*time.Hour)
+	if previous {
+		a, b, at = revokedAlice, revokedBob, time.Now().Add(-time.Hour)
+	}
+	tmp := htFile + ".tmp"
+	os.WriteFile(tmp, []byte("carol:"+sha("carol-pass")+"\nalice:"+sha(a)+"\nbob:"+sha(b)+"\n"), 0o644)
+	os.Chtimes(tmp, at, at)
+	os.Rename(tmp, htFile)
 }
 
 // ---------------------------------------------------------------------------
@@ -100,6 +117,10 @@ type Req struct {
 type Case struct {
 	Site Site  `json:"site"`
 	Reqs []Req `json:"reqs"`
+	// HtRotate: the site was first loaded while the htpasswd file held other passwords for the rule users;
+	// the file was then replaced by the current one (same size, older modification time) and the
+	// configuration reloaded.  Credential kind "revoked" presents such a former password.
+	HtRotate bool `json:"ht_rotate,omitempty"`
 }
 
 var otherText = map[string]string{
@@ -257,6 +278,16 @@ func authHeader(s Site, cred string) string {
 			return enc(s.Auth[0].User, "")
 		}
 		return enc("alice", "")
+	case "revoked":
+		// a password the htpasswd file held for the rule's user before it was replaced
+		u := "alice"
+		if len(s.Auth) > 0 {
+			u = s.Auth[0].User
+		}
+		if u == "bob" {
+			return enc(u, revokedBob)
+		}
+		return enc(u, revokedAlice)
 	case "fileuser":
 		// a valid pair of the htpasswd file, but not the user any rule names
 		return enc("carol", "carol-pass")
@@ -309,12 +340,25 @@ func decodeAll(resp *srv.Resp, target string) [][]byte {
 func runCase(c *Case) (nontrivial int, err error) {
 	t := setupOnce()
 	cf := siteBlock("prot.test", c.Site, true) + siteBlock("twin.test", c.Site, false)
-	inst, e := casket.Start(casket.CasketfileInput{Contents: []byte(cf), Filepath: filepath.Join(t.Base, "Casketfile"), ServerTypeName: "http"})
+	input := casket.CasketfileInput{Contents: []byte(cf), Filepath: filepath.Join(t.Base, "Casketfile"), ServerTypeName: "http"}
+	if c.HtRotate {
+		writeHtpasswd(true)
+		defer writeHtpasswd(false)
+	}
+	inst, e := casket.Start(input)
 	if e != nil {
 		srv.Stop(inst)
 		return 0, fmt.Errorf("HARNESS: start: %v\n%s", e, cf)
 	}
-	defer srv.Stop(inst)
+	defer func() { srv.Stop(inst) }()
+	if c.HtRotate {
+		writeHtpasswd(false)
+		ni, e := inst.Restart(input)
+		if e != nil {
+			return 0, fmt.Errorf("reloading the same configuration after the htpasswd file was replaced failed: %v", e)
+		}
+		inst = ni
+	}
 	addr := srv.Loopback(srv.Addrs(inst)[0])
 	do := func(host string, r Req) (*srv.Resp, error) {
 		hdr := [][2]string{{"Connection", "close"}}
@@ -539,8 +583,31 @@ func genSite(t *rapid.T) Site {
 		}
 		s.Others = append(s.Others, o)
 	}
+	// a scope that names one file invites the aliases the path-rewriting directives make for it
+	if len(fileScopes(s)) > 0 && !hasOther(s, "ext") && rapid.Bool().Draw(t, "extforfile") {
+		s.Others = append(s.Others, "ext")
+	}
 	sort.Strings(s.Others)
 	return s
+}
+
+// fileScopes lists the protected scopes that name a single file.
+func fileScopes(s Site) []string {
+	var out []string
+	add := func(p string) {
+		if strings.HasSuffix(p, ".txt") || strings.HasSuffix(p, ".html") {
+			out = append(out, p)
+		}
+	}
+	for _, a := range s.Auth {
+		for _, r := range a.Resources {
+			add(r)
+		}
+	}
+	for _, p := range s.Internal {
+		add(p)
+	}
+	return out
 }
 
 // ancestorOfScope: is dir a strict ancestor of some basicauth scope of the site?
@@ -605,6 +672,12 @@ func genTarget(t *rapid.T, s Site, lb string) string {
 			return rapid.SampledFrom(fcgiTargets).Draw(t, lb+"ft")
 		}
 	}
+	if fs := fileScopes(s); len(fs) > 0 && rapid.IntRange(0, 5).Draw(t, lb+"fs") == 0 {
+		// other names of a file-shaped scope: without its extension (ext), in another letter case, with a slash
+		f := rapid.SampledFrom(fs).Draw(t, lb+"fsf")
+		bare := strings.TrimSuffix(strings.TrimSuffix(f, ".txt"), ".html")
+		return rapid.SampledFrom([]string{bare, bare, strings.ToUpper(bare), f, f + "/", bare + "/"}).Draw(t, lb+"fst")
+	}
 	return rapid.SampledFrom(protTargets).Draw(t, lb+"t")
 }
 
@@ -614,6 +687,11 @@ func TestProtected(t *testing.T) {
 	}
 	rapid.Check(t, func(t *rapid.T) {
 		c := &Case{Site: genSite(t)}
+		for _, a := range c.Site.Auth {
+			if a.Htpasswd && !c.HtRotate {
+				c.HtRotate = rapid.IntRange(0, 2).Draw(t, "htrotate") == 0
+			}
+		}
 		n := rapid.IntRange(15, 50).Draw(t, "nreq")
 		for i := 0; i < n; i++ {
 			lb := fmt.Sprintf("r%d", i)
@@ -621,6 +699,9 @@ func TestProtected(t *testing.T) {
 				Target: genTarget(t, c.Site, lb),
 				AE:     rapid.SampledFrom([]string{"-", "gzip", "gzip, br", "zstd, gzip"}).Draw(t, lb+"ae"),
 				Cred:   rapid.SampledFrom([]string{"none", "none", "none", "wrongpw", "wronguser", "emptypw", "fileuser", "malformed", "rule0", "rule0", "rule1"}).Draw(t, lb+"c")}
+			if c.HtRotate && rapid.IntRange(0, 3).Draw(t, lb+"rev") == 0 {
+				r.Cred = "revoked"
+			}
 			if vt.Open("archive-bypasses-protection") && hasOther(c.Site, "browse-arch") && strings.Contains(r.Target, "archive=") {
 				// exclude by construction exactly the listed finding: an archive of a
 				// directory that is a strict ancestor of a protected scope
